@@ -487,6 +487,8 @@ class CompiledChemicals(Chemicals):
         
         """
         IDs = tuple(IDs)
+        if name in self.__dict__ and name not in self._group_mol_compositions:
+            raise ValueError(f"'{name}' already in use by {repr(self.__dict__[name])}")
         if composition is None:
             composition = np.ones(len(IDs))
         elif len(composition) != len(IDs): 
